@@ -14,6 +14,14 @@ def nsq(v):
     return t
 
 
+def unitize(v):
+    """v / |v| for float arrays (concrete mode) and for arrays of Terms carrying shadow values (concolic mode)"""
+    n2 = nsq(v)
+    if isinstance(n2, Term):
+        return v / n2.sqrt()
+    return v / math.sqrt(float(n2))
+
+
 def dot(a, b):
     t = 0
     for x, y in zip(a, b):
@@ -105,11 +113,11 @@ def unit_quat(h, name):
     if h.sym:
         h.unit(q)
         return q
-    n = math.sqrt(float(nsq(q)))
-    if n < 1e-6:
+    n2 = nsq(q)
+    if (n2.val if isinstance(n2, Term) else float(n2)) < 1e-12:
         from symreal.api import AssumptionFailed
         raise AssumptionFailed()
-    return q / n
+    return unitize(q)
 
 
 def rot_quat(h, name):
